@@ -93,3 +93,46 @@ def has_call(bv, *names, resolved=None):
             if resolved is None or resolved in norm(t.get("resolved") or ""):
                 out.append((bi, t))
     return out
+
+
+def alts(t):
+    """Flatten phis and strip references: the list of alternative value terms."""
+    out = []
+    st = [t]
+    while st:
+        x = st.pop()
+        while x[0] in ("ref", "deref"):
+            x = x[1]
+        if x[0] == "phi":
+            st.extend(x[1])
+        elif x not in out:
+            out.append(x)
+    return out
+
+
+def apath(t, names=None):
+    """Access path of a term with references ignored everywhere: param1.params.source"""
+    names = names or {}
+    while t[0] in ("ref", "deref"):
+        t = t[1]
+    if t[0] == "param":
+        return names.get(t[1], "param%d" % t[1])
+    if t[0] == "field":
+        return apath(t[1], names) + "." + str(t[2])
+    if t[0] == "downcast":
+        return apath(t[1], names) + "@" + str(t[2])
+    if t[0] == "call" and t[1] in ("std::clone::Clone::clone", "std::borrow::ToOwned::to_owned", "std::convert::Into::into", "std::convert::From::from", "std::option::Option::<T>::as_ref", "std::ops::Deref::deref") and t[2]:
+        return apath(t[2][0], names)
+    if t[0] == "call":
+        return "%s(%s)" % (norm(t[1]).split("::")[-1], ", ".join(apath(a, names) for a in t[2]))
+    if t[0] == "const":
+        v = const_val(t[1])
+        return repr(v) if v is not None else t[1]["s"]
+    if t[0] == "agg":
+        return "%s{%s}" % ((t[2] or t[1]).split("::")[-1], ", ".join(apath(a, names) for a in t[3]))
+    if t[0] == "phi":
+        return "phi(" + "|".join(sorted(apath(a, names) for a in t[1])) + ")"
+    if t[0] == "okpayload":
+        return "ok(%s)" % apath(t[1], names)
+    from .core import fmt_t
+    return fmt_t(t)
